@@ -546,6 +546,27 @@ pub fn corpus(rng: &mut Rng, thorough: bool) -> Vec<Item> {
 		};
 		push(&mut v, "gen.yaml_u0700_first", text.into_bytes());
 	}
+	// LONG text in U+0700–U+07FF (as MessagePack: array / map 16 / 32 markers
+	// whose counts never close — thousands of levels), and binary MessagePack
+	// nested beyond the depth limit: a trial may decline, never abort detection.
+	for (lead, n) in [(0x710u32, 600usize), (0x780, 2100), (0x7ca, 900)] {
+		let c = char::from_u32(lead).unwrap();
+		let words: String = (0..n).map(|i| format!("- {}{}\n", c, char::from_u32(lead + 1 + (i % 20) as u32).unwrap())).collect();
+		push(&mut v, "gen.yaml_u0700_long", words.into_bytes());
+		let line: String = std::iter::repeat(c).take(n).collect();
+		push(&mut v, "gen.yaml_u0700_long", format!("{c}: {line}\n").into_bytes());
+	}
+	for n in [1024usize, 1100, 5000] {
+		let mut b = vec![0x91u8; n];
+		b.push(0x01);
+		push(&mut v, "gen.msgpack_overdeep", b.clone());
+		b.pop();
+		b.extend_from_slice(b": 1\n");
+		push(&mut v, "gen.msgpack_overdeep", b);
+	}
+	for (label, bytes) in [("bom_json", &b"\xef\xbb\xbf{\"a\": -0}\n"[..]), ("bom_json", b"\xef\xbb\xbf[1, 2]"), ("bom_json", b"\xef\xbb\xbf  \n{\"a\": 1}\n{\"b\": 2}\n"), ("bom_yaml", b"\xef\xbb\xbfk: v\n")] {
+		push(&mut v, label, bytes.to_vec());
+	}
 	// A first YAML document followed by a very short (possibly broken) second
 	// one: the inputs on which the YAML trial may reach the end of the input
 	// before it has returned the first document.
